@@ -394,8 +394,6 @@ func vcL2(out *zzverif.Out, cfg *vcCfg, caseLine string, r *vcResult) {
 			need, ok := sumOK(sz, cfg.Overhead)
 			if sz != 0 && (!ok || need > gpus[i].FreeMemory) {
 				fail("alloc-exceeds-free", gi, "gpu=%d size=%d overhead=%d free=%d layers_on_gpu=%d", i, sz, cfg.Overhead, gpus[i].FreeMemory, counts[i])
-			} else if counts[i] > 0 && need >= gpus[i].FreeMemory {
-				fail("alloc-exceeds-free", gi, "gpu=%d size=%d overhead=%d free=%d layers_on_gpu=%d (not strictly below)", i, sz, cfg.Overhead, gpus[i].FreeMemory, counts[i])
 			}
 			if counts[i] > 0 && sz == 0 {
 				fail("alloc-exceeds-free", gi, "gpu=%d has %d layers but size 0", i, counts[i])
